@@ -42,13 +42,10 @@ theorem victim_independent_of_order (v : Variant) (l l' : List HItem) (b : HItem
 /-! ### tie by translation: the source's own leaf logic (regenerated into SV/Generated/Funcs.lean on every run) IS the model's -/
 theorem source_threshold_tests_are_the_models (p : Pool) :
     p.exceeded =
-      Gen.poolExceeded (Gen.tooManyBytes (clampNat p.numBytes) p.cfg.numBytesThreshold)
-        (Gen.tooManySenders (clampNat p.cntSenders) p.cfg.countThreshold)
-        (Gen.tooManyTxs (clampNat p.cntTx) p.cfg.countThreshold) := GenProofs.poolExceeded_eq p
+      Gen.poolExceeded (cache_areThereTooManyBytes := (Gen.tooManyBytes (cache_NumBytes := (clampNat p.numBytes)) (cache_config_NumBytesThreshold := p.cfg.numBytesThreshold))) (cache_areThereTooManySenders := (Gen.tooManySenders (cache_CountSenders := (clampNat p.cntSenders)) (cache_config_CountThreshold := p.cfg.countThreshold))) (cache_areThereTooManyTxs := (Gen.tooManyTxs (cache_CountTx := (clampNat p.cntTx)) (cache_config_CountThreshold := p.cfg.countThreshold))) := GenProofs.poolExceeded_eq p
 theorem source_comparator_is_the_models (a b : Tx) :
     moreValuable Variant.current a b =
-      Gen.moreValuable (GenProofs.sat64 (a.ppu Variant.current)) (GenProofs.sat64 (b.ppu Variant.current))
-        a.gasLimit b.gasLimit a.hash b.hash (a.ppu Variant.current) (b.ppu Variant.current) := GenProofs.moreValuable_eq a b
+      Gen.moreValuable (wrappedTx_PricePerUnit := (GenProofs.sat64 (a.ppu Variant.current))) (otherTransaction_PricePerUnit := (GenProofs.sat64 (b.ppu Variant.current))) (wrappedTx_Tx_GetGasLimit := a.gasLimit) (otherTransaction_Tx_GetGasLimit := b.gasLimit) (wrappedTx_TxHash := a.hash) (otherTransaction_TxHash := b.hash) (wrappedTx_computeExactPricePerUnit := (a.ppu Variant.current)) (otherTransaction_computeExactPricePerUnit := (b.ppu Variant.current)) := GenProofs.moreValuable_eq a b
 
 /-! ### end to end, over every pool reachable by any history (SV/TxCache/ReachableSize.lean) -/
 /-- eviction of any reachable pool cuts per-sender nonce suffixes: what is kept is a prefix, every kept nonce is below every cut one -/
@@ -76,7 +73,7 @@ theorem every_reachable_survivor_stays_hashed (U : Bytes → Tx) (cfg : Config) 
 /-- the cut of a sender's suffix walks from the back and stops where the source's loop breaks (first nonce below the cut) -/
 theorem source_suffix_cut_is_the_models (n : Nat) (c : Tx) (rest : List Tx) :
     dropHigherRev n (c :: rest) =
-      (if Gen.removeHigherStops c.nonce n = [true] then c :: rest else dropHigherRev n rest) :=
+      (if Gen.removeHigherStops (txNonce := c.nonce) (givenNonce := n) = [true] then c :: rest else dropHigherRev n rest) :=
   GenProofs.dropHigherRev_cons_eq_source n c rest
 
 open GoList in
